@@ -907,6 +907,59 @@ impl Prop for C15 {
     fn begin(&self) {
         let _ = std::fs::create_dir_all(tmp_root());
     }
+    /// fixed shapes that every run has: forbidden edits COMBINED with allowed ones in the same table
+    /// (rename = dropped + added column, drop + add + add, changed definition / key next to a new column)
+    /// and across two tables of one submission; each followed by rows, an allowed submission and a restart
+    fn enumerated_case(&self, _tier: Tier, index: usize) -> Option<Vec<String>> {
+        let t1 = "T:t1:a/INTEGER/np/-/-,c_foo/TEXT/-/-/-,b/INTEGER/-/7/-:- I:t1_i0:t1:b:-:-";
+        let t2 = "T:t2:a/INTEGER/n/-/-,b/TEXT/n/-/-,c/TEXT/-/w1/-:a.b I:t2_i0:t2:c:-:-";
+        let head = vec![format!("submit {t1} {t2}"), "rows t1 2".to_string(), "rows t2 2".to_string()];
+        let tail = vec![
+            "rows t1 1".to_string(),
+            "submit T:t1:a/INTEGER/np/-/-,c_foo/TEXT/-/-/-,b/INTEGER/-/7/-,z1/TEXT/-/-/-:- I:t1_i0:t1:b:-:-".to_string(),
+            "rows t1 1".to_string(),
+            "restart".to_string(),
+            "rows t2 1".to_string(),
+        ];
+        let mid: Vec<&str> = match index {
+            // rename (same length), rename + one more column (longer), rename at the end, drop + add + add without the index
+            0 => vec![
+                "submit T:t1:a/INTEGER/np/-/-,c_bar/TEXT/-/-/-,b/INTEGER/-/7/-:- I:t1_i0:t1:b:-:-",
+                "submit T:t1:a/INTEGER/np/-/-,c_bar/TEXT/-/-/-,b/INTEGER/-/7/-,c/TEXT/-/w2/-:- I:t1_i0:t1:b:-:-",
+                "submit T:t1:a/INTEGER/np/-/-,b/INTEGER/-/7/-,c_bar/TEXT/-/-/-:- I:t1_i0:t1:b:-:-",
+                "submit T:t1:a/INTEGER/np/-/-,b/INTEGER/-/7/-,c/TEXT/-/-/-,d/INTEGER/n/1/-:-",
+            ],
+            // changed type / default / nullability of one column while another is added; key change while a column is added
+            1 => vec![
+                "submit T:t1:a/INTEGER/np/-/-,c_foo/INTEGER/-/-/-,b/INTEGER/-/7/-,c/TEXT/-/-/-:- I:t1_i0:t1:b:-:-",
+                "submit T:t1:a/INTEGER/np/-/-,c/TEXT/-/-/-,c_foo/TEXT/-/-/-,b/INTEGER/-/8/-:- I:t1_i0:t1:b:-:-",
+                "submit T:t1:a/INTEGER/np/-/-,c_foo/TEXT/n/x/-,b/INTEGER/-/7/-,c/TEXT/-/-/va:-",
+                "submit T:t2:a/INTEGER/n/-/-,b/TEXT/n/-/-,c/TEXT/-/w1/-,d/INTEGER/-/-/-:b.a I:t2_i0:t2:c:-:-",
+                "submit T:t2:a/INTEGER/n/-/-,b/TEXT/n/-/-,c/TEXT/-/w1/-,d/INTEGER/n/0/-:a.b.d",
+                "submit T:t2:a/INTEGER/n/-/-,b/TEXT/n/-/-,c/TEXT/n/w1/-,d/INTEGER/-/-/-:a I:t2_i0:t2:c:-:-",
+            ],
+            // across two tables of one submission: allowed edit of one table (new column, dropped index) and a
+            // combined forbidden one of the other, after a new table that is created before the error
+            2 => vec![
+                "submit T:t2:a/INTEGER/n/-/-,b/TEXT/n/-/-,c/TEXT/-/w1/-,d/INTEGER/-/5/-:a.b T:t1:a/INTEGER/np/-/-,c_bar/TEXT/-/-/-,b/INTEGER/-/7/-:- I:t1_i0:t1:b:-:-",
+                "submit T:t3:a/INTEGER/np/-/-,b/TEXT/-/-/-:- I:t3_i0:t3:b:-:- T:t1:a/INTEGER/np/-/-,c_foo/TEXT/-/-/-,b/INTEGER/-/7/-,c/TEXT/-/-/-:- T:t2:a/INTEGER/n/-/-,b/TEXT/n/-/-,e/TEXT/-/w1/-,d/INTEGER/-/-/-:a.b",
+                "submit T:t1:a/INTEGER/np/-/-,c_foo/TEXT/-/-/-,b/INTEGER/-/7/-,c/TEXT/-/-/-:- T:t2:a/INTEGER/n/-/-,b/TEXT/n/-/-,c/TEXT/-/w1/-,d/INTEGER/-/5/-:a.b",
+                "submit T:t1:a/INTEGER/np/-/-,c_foo/TEXT/-/-/-,b/INTEGER/-/7/-,c/TEXT/-/-/-:- T:t2:a/INTEGER/n/-/-,b/TEXT/n/-/-,c/TEXT/-/w1/-,d/INTEGER/-/5/-:a.b",
+            ],
+            _ => return None,
+        };
+        let mut ops = head;
+        ops.extend(mid.into_iter().map(String::from));
+        if index == 2 {
+            // t1 got column c in that case: the closing allowed submission has to list it
+            let mut tail = tail;
+            tail[1] = "submit T:t1:a/INTEGER/np/-/-,c_foo/TEXT/-/-/-,b/INTEGER/-/7/-,c/TEXT/-/-/-,z1/TEXT/-/-/-:-".to_string();
+            ops.extend(tail);
+        } else {
+            ops.extend(tail);
+        }
+        Some(ops)
+    }
     fn gen_case(&self, rng: &mut Rng, tier: Tier, index: usize) -> Vec<String> {
         gen_sequence(rng, tier, index)
     }
@@ -1039,7 +1092,7 @@ fn line(kind: &str, stmts: &[Stmt]) -> String {
 /// a valid edit of an existing table (returns the edited copy)
 fn valid_edit(rng: &mut Rng, t: &GTab) -> GTab {
     let mut g = t.clone();
-    match rng.below(7) {
+    match rng.below(8) {
         0 | 1 => {
             // one or two new columns, appended or written somewhere in the middle
             // a generated column copies a column that exists already (ALTER TABLE adds the new columns one by one)
@@ -1058,6 +1111,22 @@ fn valid_edit(rng: &mut Rng, t: &GTab) -> GTab {
         6 => {
             // the same columns written in another order (nothing to do for the database)
             rng.shuffle(&mut g.tab.cols);
+        }
+        7 => {
+            // a new column while an index is dropped (or, without index, added)
+            let stored: Vec<String> = t.tab.cols.iter().filter(|c| c.generated.is_none()).map(|c| c.name.clone()).collect();
+            let name = next_col_name(&g);
+            let c = fresh_col(rng, name, &stored, false);
+            let at = rng.below(g.tab.cols.len() as u64 + 1) as usize;
+            g.tab.cols.insert(at, c);
+            if g.idx.is_empty() {
+                let name = format!("{}_i0", g.tab.name);
+                let i = fresh_index(rng, t, name);
+                g.idx.push(i);
+            } else {
+                let k = rng.below(g.idx.len() as u64) as usize;
+                g.idx.remove(k);
+            }
         }
         2 => {
             let n = g.idx.len();
@@ -1089,6 +1158,66 @@ fn valid_edit(rng: &mut Rng, t: &GTab) -> GTab {
             c.generated = Some((g.rows == 0 && rng.chance(1, 3), rng.pick(&stored).clone()));
             g.tab.cols.push(c);
         }
+    }
+    g
+}
+
+/// a column name used neither by the table as it is nor by its edited copy (so that "dropped + added" is a
+/// rename and not a redefinition)
+fn unused_col_name(t: &GTab, g: &GTab) -> String {
+    for l in ["c", "d", "e", "f", "g", "h", "i", "j", "k", "l", "m", "n", "o", "p", "q", "r", "s", "u", "v", "w"] {
+        if !t.tab.cols.iter().any(|c| c.name == l) && !g.tab.cols.iter().any(|c| c.name == l) {
+            return l.to_string();
+        }
+    }
+    format!("z{}", t.tab.cols.len() + g.tab.cols.len())
+}
+
+/// Allowed edits laid over a forbidden one IN THE SAME TABLE: one or two new columns (so that a dropped
+/// column does not make the table shorter: rename, drop+add+add), possibly an index added or dropped.
+/// `t` is the table as the node knows it, `bad` its forbidden copy.
+fn combine_allowed(rng: &mut Rng, t: &GTab, bad: &GTab) -> GTab {
+    let mut g = bad.clone();
+    // a generated column may only copy an ordinary column that exists before and after the edit
+    let stored: Vec<String> = t
+        .tab
+        .cols
+        .iter()
+        .filter(|c| c.generated.is_none() && bad.tab.cols.iter().any(|b| b.name == c.name && b.generated.is_none()))
+        .map(|c| c.name.clone())
+        .collect();
+    // where a dropped column used to be (a rename keeps the position)
+    let dropped_at = t.tab.cols.iter().position(|c| !bad.tab.cols.iter().any(|b| b.name == c.name));
+    for k in 0..rng.range(1, 2) {
+        let name = unused_col_name(t, &g);
+        let c = fresh_col(rng, name, &stored, true);
+        match (k, dropped_at) {
+            (0, Some(at)) if rng.chance(1, 2) => g.tab.cols.insert(at.min(g.tab.cols.len()), c),
+            _ if rng.chance(1, 2) => g.tab.cols.push(c),
+            _ => {
+                let at = rng.below(g.tab.cols.len() as u64 + 1) as usize;
+                g.tab.cols.insert(at, c);
+            }
+        }
+    }
+    match rng.below(4) {
+        0 if !g.idx.is_empty() => {
+            let k = rng.below(g.idx.len() as u64) as usize;
+            g.idx.remove(k);
+        }
+        1 => {
+            let name = (0..).map(|k| format!("{}_i{k}", g.tab.name)).find(|nm| !t.idx.iter().any(|i| &i.name == nm) && !g.idx.iter().any(|i| &i.name == nm)).unwrap();
+            let mut i = fresh_index(rng, t, name);
+            // only columns that are still there
+            i.cols.retain(|c| g.tab.cols.iter().any(|x| &x.name == c));
+            if i.whr.as_ref().is_some_and(|w| !g.tab.cols.iter().any(|x| &x.name == w)) {
+                i.whr = None;
+            }
+            if !i.cols.is_empty() {
+                g.idx.push(i);
+            }
+        }
+        _ => {}
     }
     g
 }
@@ -1317,6 +1446,9 @@ fn gen_sequence(rng: &mut Rng, tier: Tier, _index: usize) -> Vec<String> {
             // (the new table is created before the error is met) and next to valid edits of other tables
             let k = rng.below(cur.len() as u64) as usize;
             let Some((bad, _what)) = forbidden_edit(rng, &cur[k]) else { continue };
+            // … alone, or together with allowed edits of the same table (a dropped column next to new ones is a
+            // rename and leaves the table as long as it was or longer)
+            let bad = if rng.chance(1, 2) { combine_allowed(rng, &cur[k], &bad) } else { bad };
             let mut stmts = vec![];
             if rng.chance(1, 2) {
                 let g = fresh_table(rng, format!("t{next_tab}"));
